@@ -768,6 +768,19 @@ func cmdCheck(prop, tier string, only *regexp.Regexp) int {
 				continue
 			}
 			st.attempts++
+			if strings.Contains(v.Label, ".no-plain-write.") {
+				// a plain write to shared memory is not observable by a sequential native run (it is a
+				// data race only under a concurrent schedule): reported on the engine's evidence alone
+				st.confirmed = true
+				if known != nil {
+					knownLines = append(knownLines, fmt.Sprintf("KNOWN-FINDING: property=%s %s", prop, known.What))
+					continue
+				}
+				nViol++
+				violLines = append(violLines, fmt.Sprintf("VIOLATION property=%s replay=%s", prop, path))
+				notes = append(notes, fmt.Sprintf("%s %s %s (engine-only: shared-memory write) choices=%v", hm.Name, v.Kind, v.Label, v.Choices))
+				continue
+			}
 			ro, err := nativeReplay(path)
 			replayed++
 			if err != nil || ro.BuildError {
